@@ -231,6 +231,27 @@ func (f *FSM) GetMapping(statsdMetric string, statsdMetricType string) (*mapping
 	return finalState, finalCaptures
 }
 
+// HasAmbiguousTransitions reports whether some state of the FSM can be left both
+// through the wildcard transition and through a literal one. Only in such a
+// state can the search follow a literal branch that dead-ends although the
+// wildcard branch would have led to a match, so this is when backtracking is
+// needed for the search to find every match.
+func (f *FSM) HasAmbiguousTransitions() bool {
+	return f.root.hasAmbiguousTransitions()
+}
+
+func (s *mappingState) hasAmbiguousTransitions() bool {
+	if _, wildcard := s.transitions["*"]; wildcard && len(s.transitions) > 1 {
+		return true
+	}
+	for _, next := range s.transitions {
+		if next.hasAmbiguousTransitions() {
+			return true
+		}
+	}
+	return false
+}
+
 // TestIfNeedBacktracking tests if backtrack is needed for given list of mappings
 // and whether ordering is disabled.
 func TestIfNeedBacktracking(mappings []string, orderingDisabled bool, logger *slog.Logger) bool {
